@@ -24,6 +24,8 @@ func TestWorker(t *testing.T) {
 	workerlib.Main(args,
 		func(prop string) workerlib.Engine {
 			switch prop {
+			case "C07":
+				return func(r *sim.R) { RunLexer(t, r) }
 			case "C11":
 				if race {
 					return func(r *sim.R) { RunRace(t, r) }
